@@ -37,10 +37,25 @@ def add_computed_default(ch, label, desc, p_=0.15):
         p["computed"] = True
 
 
+def spice_names_and_prose(ch, label, desc):
+    """Parameter names that are also words of the docstring grammar or of doctrans' own vocabulary, private names; prose that
+    is longer than a line and quotes code (with blanks in it)."""
+    if ch.chance(label + ".oddname", 0.08):
+        p = ch.choice(label + ".oddwhich", desc["params"])
+        taken = {q["name"] for q in desc["params"]}
+        cands = [n for n in ("return_type", "returns", "param", "type", "default", "_private", "self_", "cvar", "kwargs_spec") if n not in taken]
+        p["name"] = ch.choice(label + ".oddnamev", cands)
+    if ch.chance(label + ".longdoc", 0.15):
+        p = ch.choice(label + ".longwhich", desc["params"])
+        span = ch.choice(label + ".span", ["```np.sum(data, axis=axis)```", "```(batch, height, width)```", "```x if x else None```"])
+        p["doc"] = "%s; for every item of the input it is computed as %s and then scaled so that the total stays within the configured bounds of the session" % (p["doc"], span)
+
+
 def gen_fn_job(ch, jid, label, allow_stale_docs=False):
     """A user-written function/method with a docstring documenting all / some / none of its parameters,
     in or out of signature order."""
     desc = render.gen_desc(ch, "conservative" if ch.chance(label + ".prof", 0.7) else "wide", 1, 6, label)
+    spice_names_and_prose(ch, label, desc)
     # python needs non-defaulted positionals first: gen_desc guarantees it
     names = [p["name"] for p in desc["params"]]
     mode = ch.weighted(label + ".docmode", [("all", 2), ("some", 5), ("none", 1.5), ("shuffled", 2)])
@@ -171,6 +186,7 @@ def gen_hop_job(ch, jid, label):
     desc = render.gen_desc(ch, "conservative", 1, 4, label)
     desc["returns"] = None
     add_computed_default(ch, label, desc)
+    spice_names_and_prose(ch, label, desc)
     a = ch.choice(label + ".a", ["class", "function", "argparse"])
     b = ch.choice(label + ".b", ["class", "function", "argparse", "docstring_rest", "docstring_numpydoc", "docstring_google"])
     names = [p["name"] for p in desc["params"]]
@@ -291,8 +307,10 @@ def gen_wrap_job(ch, jid, label):
         size = ch.choice("%s.p%d.size" % (label, i), ["short", "medium", "long"])
         doc = prose("%s.p%d.doc" % (label, i), *{"short": (2, 4), "medium": (8, 14), "long": (25, 45)}[size])
         typ = ch.choice("%s.p%d.typ" % (label, i), ["str", "int", "Optional[str]", "Literal['np', 'tf']",
-                                                    "Optional[Literal['alpha', 'beta', 'gamma', 'delta', 'epsilon', 'zeta', 'eta', 'theta']]"])
-        d = render.gen_default(ch, typ if not typ.startswith("Optional[Literal") else "str", "%s.p%d.def" % (label, i))
+                                                    "Optional[Literal['alpha', 'beta', 'gamma', 'delta', 'epsilon', 'zeta', 'eta', 'theta']]",
+                                                    # PEP 604 spelling: a long type whose separators are outside every bracket
+                                                    "int | Dict[str, int] | List[Tuple[str, int]] | None"])
+        d = render.gen_default(ch, "int" if "|" in typ else typ if not typ.startswith("Optional[Literal") else "str", "%s.p%d.def" % (label, i))
         sentence = ch.weighted("%s.p%d.sent" % (label, i), [("no", 3), ("with_key", 1), ("without_key", 1)])
         if sentence != "no" and d is not None and d.get("v") is not None:
             # the description itself announces the default (as a description parsed from an existing docstring does)
